@@ -441,7 +441,7 @@ Proof.
   - assert (Hr' : nth_error r (S i) = nth_error r' i).
     { destruct (Z.eqb t0 rel); [destruct l, u; try discriminate|]; injection H as <-; reflexivity. }
     specialize (IH _ _ _ _ i Hr Ht Hx). destruct (Z.eqb t rel).
-    + destruct IH as [a [b [Ha [Hb Hri]]]]. exists a, b. cbn. rewrite Hr'. auto.
+    + destruct IH as [a [b [Ha [Hb Hri]]]]. exists a, b. rewrite Hr'. cbn [nth_error]. auto.
     + rewrite Hr'. exact IH.
 Qed.
 
@@ -491,7 +491,7 @@ Proof.
   destruct H2 as [mags [bt [ty [mags' [Hm [Hb [Ht [Hr ->]]]]]]]].
   apply bcast_to_ok in Hm as [Hml _]. apply bcast_to_ok in Hb as [Hbl [Hbe _]]. apply bcast_to_ok in Ht as [Htl [Hte _]].
   apply relative_scale_ok in Hr as [Hrl _].
-  constructor; cbn.
+  constructor; cbn [g_P g_pmin g_mags g_ptypes g_btypes].
   - exact HP.
   - rewrite clamp_min_spec. eexists. split; [reflexivity|]. destruct (g_pmin g) as [k|]; [|lia].
     assert (k <> 0)%nat by (intros ->; apply Hpm; reflexivity). lia.
@@ -514,7 +514,7 @@ Lemma gradient_fixed E n vars g : variables_wf E n vars -> gradient_wf E n g ->
   validate_gradient_fields E g = Ok g /\ fix_perturbations E None vars g = Ok g.
 Proof.
   intros Hv [HP [k [Hk Hkr]] Hm Htl Hte Hta Hbl Hbe]. destruct Hv as [Hi Hl Hu _ _ _].
-  destruct g as [P pmin mags pt bt]; cbn in *. subst pmin. split.
+  destruct g as [P pmin mags pt bt]; cbn [g_P g_pmin g_mags g_ptypes g_btypes] in *. subst pmin. split.
   - unfold validate_gradient_fields. cbn [g_P g_pmin g_ptypes g_btypes g_mags].
     apply Nat.ltb_lt in HP. rewrite HP. cbn [guard bind]. destruct k as [|k']; [lia|]. cbn [guard bind].
     rewrite Hte, Hbe. cbn [guard bind]. rewrite clamp_min_spec. do 3 f_equal. lia.
